@@ -412,3 +412,64 @@ Example toy_merklize :
             merklize_tree toy_hasher 40 (2 ^ 254) no_floats (Some E) (rev ex_ds) = Ok t /\
             List.length (leaves t) = 2%nat.
 Proof. eexists. split; [vm_compute; reflexivity|]. split; vm_compute; reflexivity. Qed.
+
+(* ------------------------------------------------------------------ *)
+(* the depth (maxLevels) of a caller-provided tree only decides WHETHER  *)
+(* insertion succeeds, never WHAT is built                                *)
+(* ------------------------------------------------------------------ *)
+Lemma push_depth_indep : forall f1 f2 lvl nk nv ok ov a b,
+  push f1 lvl nk nv ok ov = Ok a -> push f2 lvl nk nv ok ov = Ok b -> a = b.
+Proof.
+  induction f1 as [|f1 IH]; intros f2 lvl nk nv ok ov a b; simpl; [discriminate|].
+  destruct f2 as [|f2]; simpl; [discriminate|].
+  destruct (Bool.eqb (bit nk lvl) (bit ok lvl)).
+  - destruct (push f1 (S lvl) nk nv ok ov) as [t1| | |] eqn:E1; cbn [bind]; try discriminate.
+    destruct (push f2 (S lvl) nk nv ok ov) as [t2| | |] eqn:E2; cbn [bind]; try discriminate.
+    intros H1 H2. inversion H1; inversion H2; subst.
+    now rewrite (IH _ _ _ _ _ _ _ _ E1 E2).
+  - intros H1 H2. congruence.
+Qed.
+
+Lemma add_depth_indep : forall m1 m2 t lvl k v a b,
+  add m1 t lvl k v = Ok a -> add m2 t lvl k v = Ok b -> a = b.
+Proof.
+  intros m1 m2. induction t as [|k0 v0|l IHl r IHr]; intros lvl k v a b; simpl;
+    destruct (Nat.leb m1 lvl); try discriminate; destruct (Nat.leb m2 lvl); try discriminate.
+  - congruence.
+  - destruct (k =? k0); [discriminate|]. apply push_depth_indep.
+  - destruct (bit k lvl).
+    + destruct (add m1 r (S lvl) k v) as [r1| | |] eqn:E1; cbn [bind]; try discriminate.
+      destruct (add m2 r (S lvl) k v) as [r2| | |] eqn:E2; cbn [bind]; try discriminate.
+      intros H1 H2. inversion H1; inversion H2; subst. now rewrite (IHr _ _ _ _ _ E1 E2).
+    + destruct (add m1 l (S lvl) k v) as [l1| | |] eqn:E1; cbn [bind]; try discriminate.
+      destruct (add m2 l (S lvl) k v) as [l2| | |] eqn:E2; cbn [bind]; try discriminate.
+      intros H1 H2. inversion H1; inversion H2; subst. now rewrite (IHl _ _ _ _ _ E1 E2).
+Qed.
+
+Lemma mt_add_depth_indep : forall m1 m2 q t k v a b,
+  mt_add m1 q t k v = Ok a -> mt_add m2 q t k v = Ok b -> a = b.
+Proof.
+  intros m1 m2 q t k v a b H1 H2.
+  apply mt_add_ok_iff in H1. apply mt_add_ok_iff in H2.
+  destruct H1 as (_ & H1). destruct H2 as (_ & H2). eapply add_depth_indep; eassumption.
+Qed.
+
+Lemma add_entries_depth_indep : forall H m1 m2 q es t a b,
+  add_entries H m1 q t es = Ok a -> add_entries H m2 q t es = Ok b -> a = b.
+Proof.
+  intros H m1 m2 q. induction es as [|e es IH]; intros t a b; cbn [add_entries].
+  - congruence.
+  - destruct (entry_kv H e) as [kv| | |]; cbn [bind]; try discriminate.
+    destruct (mt_add m1 q t (fst kv) (snd kv)) as [t1| | |] eqn:E1; cbn [bind]; try discriminate.
+    destruct (mt_add m2 q t (fst kv) (snd kv)) as [t2| | |] eqn:E2; cbn [bind]; try discriminate.
+    rewrite (mt_add_depth_indep _ _ _ _ _ _ _ _ E1 E2). apply IH.
+Qed.
+
+Theorem merklize_depth_indep : forall H m1 m2 q F mt ds t1 t2,
+  merklize_tree H m1 q F mt ds = Ok t1 -> merklize_tree H m2 q F mt ds = Ok t2 -> t1 = t2.
+Proof.
+  intros H m1 m2 q F mt ds t1 t2. unfold merklize_tree.
+  destruct (entries_from_rdf F (h_prime H) ds) as [es| | |]; cbn [bind]; try discriminate.
+  destruct (map_res (fun e => path_key H (e_key e)) es); cbn [bind]; try discriminate.
+  apply add_entries_depth_indep.
+Qed.
